@@ -19,7 +19,7 @@ def cfgNoHaserrRO : Cfg := Cfg.withM (fun m => { m with haserrRO := false })
 nil; the retry succeeded and posted nil: the machine is in `noerr`, `tCompaction` has parked, the token is in
 `writeLockC` for `compWriteLocking` -/
 def stNoHaserrRO (p : Pc) : St :=
-  { ws := [.ret false, .ret true, p], tok := true, ehTok := true, cwl := true, ro := true, ehErr := .nil,
+  { ws := [.ret false, .ret true, p], tok := true, ehTok := true, ro := true, ehErr := .nil,
     eh := .noerr, tc := .parked }
 
 theorem runNoHaserrRO_prefix : Steps cfgNoHaserrRO (init 3) (stNoHaserrRO .idle) := by
@@ -50,7 +50,7 @@ theorem runNoHaserrRO_put : Steps cfgNoHaserrRO (init 3) (stNoHaserrRO .putSel) 
 
 /-- … a later `Close` (thread 2): every goroutine has exited, the token is still in `writeLockC` -/
 def stNoHaserrROClose : St :=
-  { ws := [.ret false, .ret true, .clAcq], tok := true, ehTok := true, cwl := true, ro := true, ehErr := .nil,
+  { ws := [.ret false, .ret true, .clAcq], tok := true, ehTok := true, ro := true, ehErr := .nil,
     closed := true, eh := .exited, mc := .exited, tc := .exited }
 
 theorem runNoHaserrRO_close : Steps cfgNoHaserrRO (init 3) stNoHaserrROClose := by
@@ -68,7 +68,7 @@ def cfgNoNoerrRO : Cfg := Cfg.withM (fun m => { m with noerrRO := false })
 
 /-- `SetReadOnly` returned nil, the machine took `default: goto haserr`; a later `Put` -/
 def stNoNoerrRO : St :=
-  { ws := [.ret true, .putSel], tok := true, ehTok := true, cwl := true, ro := true, ehErr := .readonly,
+  { ws := [.ret true, .putSel], tok := true, ehTok := true, ro := true, ehErr := .readonly,
     eh := .haserr }
 
 theorem runNoNoerrRO : Steps cfgNoNoerrRO (init 2) stNoNoerrRO := by
@@ -104,7 +104,7 @@ def cfgNoHaserrRecv : Cfg := Cfg.withM (fun m => { m with haserrRecv := false })
 /-- a compaction failed (transient), its retry succeeded but cannot report it; `SetReadOnly` (thread 1) holds the
 token and cannot post `ErrReadOnly` -/
 def stNoHaserrRecv : St :=
-  { ws := [.ret false, .srSet], tok := true, ehTok := true, cwl := true, ehErr := .transient, eh := .haserr,
+  { ws := [.ret false, .srSet], tok := true, ehTok := true, ehErr := .transient, eh := .haserr,
     tc := .run none (.setErr true false) }
 
 theorem runNoHaserrRecv : Steps cfgNoHaserrRecv (init 2) stNoHaserrRecv := by
@@ -131,18 +131,18 @@ def cfgNoPerErr : Cfg := Cfg.withM (fun m => { m with hasperrPerErr := false })
 def stRO (p : Pc) : St :=
   { ws := [.ret true, p], tok := true, ehTok := true, cwl := true, ro := true, ehErr := .readonly, eh := .hasperr }
 
-theorem runRO (cfg : Cfg) (h1 : cfg.m.noerrRecv = true) (h2 : cfg.m.noerrRO = true) :
-    Steps cfg (init 2) (stRO .idle) := by
-  have h := Steps.refl (cfg := cfg) (init 2)
+/-- the run of `stRO .idle`: `SetReadOnly` (thread 0) takes the token, posts `ErrReadOnly` in `noerr`, returns nil -/
+macro "run_ro" c:term : tactic => `(tactic| (
+  have h := Steps.refl (cfg := $c) (init 2)
   have h := h.step (Step.startSR _ 0 rfl rfl)
   have h := h.step (Step.selTok _ 0 .srSel .srSet rfl rfl rfl)
-  have e := Step.srSend (cfg := cfg) { ws := [.srSet, .idle], tok := true, ehTok := true, cwl := true } 0 rfl
-    (by simp [recvs, h1])
-  simp only [next, h2, if_true] at e
-  exact h.step e
+  have h := h.step (Step.srSend _ 0 rfl rfl)
+  exact h))
+
+theorem runRO : Steps Cfg.repaired (init 2) (stRO .idle) := by run_ro Cfg.repaired
 
 theorem runNoPerErr : Steps cfgNoPerErr (init 2) (stRO .putSel) :=
-  (runRO cfgNoPerErr rfl rfl).step (Step.startPut _ 1 rfl)
+  (show Steps cfgNoPerErr (init 2) (stRO .idle) by run_ro cfgNoPerErr).step (Step.startPut _ 1 rfl)
 
 /-! ### `hasperr` without `case db.compErrC <- err` -/
 
@@ -186,17 +186,18 @@ def stROClose (e : Eh) : St :=
   { ws := [.ret true, .clAcq], tok := true, ehTok := true, cwl := true, ro := true, ehErr := .readonly, eh := e,
     closed := true, mc := .exited, tc := .exited }
 
-theorem runROClose (cfg : Cfg) (h1 : cfg.m.noerrRecv = true) (h2 : cfg.m.noerrRO = true) :
-    Steps cfg (init 2) (stROClose .hasperr) := by
-  have h := runRO cfg h1 h2
+macro "run_ro_close" c:term : tactic => `(tactic| (
+  have h : Steps $c (init 2) (stRO .idle) := by run_ro $c
   have h := h.step (Step.startClose _ 1 rfl)
   have h := h.step (Step.clCheckTr _ 1 rfl)
   have h := h.step (Step.bgExitIdle _ false rfl rfl)
   have h := h.step (Step.bgExitIdle _ true rfl rfl)
-  exact h
+  exact h))
+
+theorem runNoHasperrClose : Steps cfgNoHasperrClose (init 2) (stROClose .hasperr) := by run_ro_close cfgNoHasperrClose
 
 theorem runNoGiveBack : Steps cfgNoGiveBack (init 2) (stROClose .exited) :=
-  (runROClose cfgNoGiveBack rfl rfl).step (Step.ehClose _ rfl rfl)
+  (show Steps cfgNoGiveBack (init 2) (stROClose .hasperr) by run_ro_close cfgNoGiveBack).step (Step.ehClose _ rfl rfl)
 
 /-! ### `hasperr` without `case db.writeLockC <- struct{}{}` -/
 
@@ -206,24 +207,20 @@ def cfgNoLock : Cfg := Cfg.withM (fun m => { m with hasperrLock := false })
 def stCorrupt (p : Pc) (tok : Bool) : St :=
   { ws := [.ret false, p], tok := tok, ehErr := .corrupt, eh := .hasperr, tc := .exited }
 
-theorem runCorrupt (cfg : Cfg) (h1 : cfg.m.noerrRecv = true) (h2 : cfg.m.noerrCorrupt = true)
-    (h3 : cfg.m.hasperrErr = true) : Steps cfg (init 2) (stCorrupt .idle false) := by
-  have h := Steps.refl (cfg := cfg) (init 2)
+macro "run_corrupt" c:term : tactic => `(tactic| (
+  have h := Steps.refl (cfg := $c) (init 2)
   have h := h.step (Step.startCR _ 0 rfl)
   have h := h.step (Step.selTok _ 0 .crSel .crCheck rfl rfl rfl)
   have h := h.step (Step.crNoOverlap _ 0 rfl)
   have h := h.step (Step.crRelOk _ 0 rfl)
-  have h := h.step (Step.cwSendGo _ 0 true .crRange false rfl rfl (by simp : (true && cfg.roParks && false) = false))
+  have h := h.step (Step.cwSendGo _ 0 true .crRange false rfl rfl rfl)
   have h := h.step (Step.bgWorkCorrupt _ true (some 0) rfl rfl)
-  have e := Step.bgSetErrCorrupt (cfg := cfg)
-    { ws := [.cwAck true .crRange false, .idle], tc := .run (some 0) (.setErrC false) } true (some 0) false rfl
-    (by simp [recvs, h1])
-  simp only [next, h2, if_true] at e
-  have h := h.step e
-  have e2 := Step.cwAckErr (cfg := cfg)
-    { ws := [.cwAck true .crRange false, .idle], tc := .exited, eh := .hasperr, ehErr := .corrupt } 0 true .crRange
-    false rfl (Or.inl (by simp [offErr, h3]))
-  exact h.step e2
+  have h := h.step (Step.bgSetErrCorrupt _ true (some 0) false rfl rfl)
+  have h := h.step (Step.cwAckErr _ 0 true .crRange false rfl (Or.inl rfl))
+  exact h))
+
+theorem runCorrupt : Steps Cfg.repaired (init 2) (stCorrupt .idle false) := by run_corrupt Cfg.repaired
+theorem runCorruptNoLock : Steps cfgNoLock (init 2) (stCorrupt .idle false) := by run_corrupt cfgNoLock
 
 /-- … and a `Put` (thread 1) goes through -/
 theorem runNoLock_put : Steps cfgNoLock (stCorrupt .idle false) (stCorrupt (.ret true) false) := by
@@ -235,7 +232,7 @@ theorem runNoLock_put : Steps cfgNoLock (stCorrupt .idle false) (stCorrupt (.ret
   have h := h.step (Step.putUnlock _ 1 true rfl)
   exact h
 
-/-! ### the code's configuration: the write lock is lost -/
+/-! ### the configuration before 832d000: the write lock is lost -/
 
 /-- `CompactRange` (thread 0) ran into a corruption while `SetReadOnly` (thread 1) was between its two `select`s;
 `Close` (thread 2): `compactionError` took `SetReadOnly`'s token on `closeC` (it read the `compWriteLocking` that
@@ -245,8 +242,8 @@ def stLost : St :=
   { ws := [.ret false, .ret false, .clWait, .putSel], tok := false, closeTok := true, cwl := true, closed := true,
     ehErr := .corrupt, eh := .exited, tc := .exited }
 
-theorem runLost : Steps Cfg.repaired (init 4) stLost := by
-  have h := Steps.refl (cfg := Cfg.repaired) (init 4)
+theorem runLost : Steps Cfg.before832 (init 4) stLost := by
+  have h := Steps.refl (cfg := Cfg.before832) (init 4)
   have h := h.step (Step.startCR _ 0 rfl)
   have h := h.step (Step.selTok _ 0 .crSel .crCheck rfl rfl rfl)
   have h := h.step (Step.crNoOverlap _ 0 rfl)
@@ -267,9 +264,37 @@ theorem runLost : Steps Cfg.repaired (init 4) stLost := by
   exact h
 
 /-- … and takes the `writeLockC` arm: the writer is inside `writeLocked` while `Close` owns the lock -/
-theorem stepLost : Step Cfg.repaired false stLost
+theorem stepLost : Step Cfg.before832 false stLost
     { stLost with ws := [.ret false, .ret false, .clWait, .putFlush], tok := true } :=
   Step.selTok stLost 3 .putSel .putFlush rfl rfl rfl
+
+/-! ### the code's configuration: the same schedule keeps the lock with `Close` -/
+
+/-- `compactionError` leaves `hasperr` without touching `writeLockC` (`compWriteLocking` is not set: it has not
+taken `ErrReadOnly`), `SetReadOnly` takes its own token back, `Close` acquires the lock and keeps it -/
+def stKept : St :=
+  { ws := [.ret false, .ret false, .clWait, .putSel], tok := true, closeTok := true, closed := true,
+    ehErr := .corrupt, eh := .exited, tc := .exited }
+
+theorem runKept : Steps Cfg.repaired (init 4) stKept := by
+  have h := Steps.refl (cfg := Cfg.repaired) (init 4)
+  have h := h.step (Step.startCR _ 0 rfl)
+  have h := h.step (Step.selTok _ 0 .crSel .crCheck rfl rfl rfl)
+  have h := h.step (Step.crNoOverlap _ 0 rfl)
+  have h := h.step (Step.crRelOk _ 0 rfl)
+  have h := h.step (Step.cwSendGo _ 0 true .crRange false rfl rfl rfl)
+  have h := h.step (Step.startPut _ 3 rfl)
+  have h := h.step (Step.startSR _ 1 rfl rfl)
+  have h := h.step (Step.selTok _ 1 .srSel .srSet rfl rfl rfl)
+  have h := h.step (Step.bgWorkCorrupt _ true (some 0) rfl rfl)
+  have h := h.step (Step.bgSetErrCorrupt _ true (some 0) false rfl rfl)
+  have h := h.step (Step.cwAckErr _ 0 true .crRange false rfl (Or.inl rfl))
+  have h := h.step (Step.startClose _ 2 rfl)
+  have h := h.step (Step.clCheckTr _ 2 rfl)
+  have h := h.step (Step.ehClose _ rfl rfl)
+  have h := h.step (Step.srClosed _ 1 rfl rfl)
+  have h := h.step (Step.clAcq _ 2 rfl rfl)
+  exact h
 
 /-! ### the code's configuration: `SetReadOnly` during the retry loop of a failing compaction, then `Close` -/
 
